@@ -285,6 +285,17 @@ func runC20(c *h.Ctx, idx int, events bool) {
 		if r.Chance(40) {
 			exc2 = append(exc2, genPattern(r, tree, events))
 		}
+		if r.Chance(45) {
+			// both watchers use textually the same include patterns and differ in what they exclude
+			inc2 = append([]string{}, inc...)
+			if len(exc) == 0 {
+				exc = append(exc, genPattern(r, tree, events))
+				sel = tree.selected(inc, exc, false)
+			}
+			if r.Bool() {
+				exc2 = nil
+			}
+		}
 		sel2 = tree.selected(inc2, exc2, false)
 	}
 	slowCtx := events && r.Chance(40)
